@@ -63,7 +63,8 @@ def main():
         "values are abstracted to (key fields, clash-determining id, content id); equal ids <-> equal serialisations (interned per history by the harness)",
         "uniqueness of answers across an expiry needs the caller/deadliner discipline stated in the theorem (entries of a set are about the duty's slot; a duty emitted by the deadliner is never Scheduled again - property C16); without it C06_answers_unique_needs_discipline is the counterexample",
         "not modelled: Shutdown; values on which Clone/Slot/Root/HashTreeRoot fail (they return before any write)",
-        "harness histories are quiescent between operations except the marked 'nowait' stores/expiries; the theorems cover all interleavings of the atomic operations",
+        "harness histories are quiescent between operations except the marked 'nowait' stores/expiries and the operations injected while a Store is inside deadliner.Add; the theorems cover all interleavings of the atomic operations",
+        "label order: LAdd = instant of the deadliner's verdict, LStore = end of that Store's write; the model (code holds db.mu from Add to return) admits only lock-free events (LExpire, reader returns) in between, and 'disciplined' constrains the verdict (LAdd), not the write",
     ]
     R.proofs()
     n = 6000 if R.thorough else 300
@@ -91,7 +92,7 @@ def main():
                 results[r_] = results.get(r_, 0) + 1
     R.coverage["distinct_nontrivial"] = len(seen)
     R.coverage["rule"] = ("histories of 1..40 Store / Await* / cancel / expire / PubKeyByAttestation operations against dutydb.NewMemDB with a scripted core.Deadliner "
-                          "in a synctest bubble (12 scenario templates first, then random histories over 2 slots x few committees/validators/variants so that keys overlap; "
+                          "in a synctest bubble (17 scenario templates first, then random histories over 2 slots x few committees/validators/variants so that keys overlap; the scripted deadliner's Add has a hook: while a Store is between its expiry verdict and the rest of the call the harness emits duties on C() and starts a complete other Store - on code that locks around Add that one can only run afterwards, the observed order is recorded from in-call stamps (Add, Clone); aggregates for one key with fewer / equal / strictly more aggregation bits and other signatures; "
                           "equal, conflicting and partially conflicting sets, multi-entry sets whose k-th entry clashes, wrong-type entries, cancellations, races, expiries); "
                           "non-trivial = at least one query that blocked and was resolved later, or at least one clash; distinct by hash of the observed label sequence")
     bad = [(h["id"], l) for h in hs for l in h["labels"] if "LBAD" in l]
